@@ -1,6 +1,8 @@
 (* C07 - Tax years.  Statements only. *)
-From Coq Require Import ZArith List Bool.
-Require Import CGT.Model.Date CGT.Proofs.DateFacts.
+From Coq Require Import QArith Qcanon ZArith List Bool String.
+Require Import CGT.Model.Num CGT.Model.Date CGT.Model.Ledger CGT.Model.Match CGT.Model.Agg CGT.Model.Report CGT.Model.Config
+               CGT.Proofs.DateFacts CGT.Proofs.SliceFacts CGT.Proofs.SortFacts.
+Import ListNotations.
 Open Scope Z_scope.
 
 (* For every day number from 1899-01-01 to 2101-12-31 (complete sweep of the finite range):
@@ -8,4 +10,37 @@ Open Scope Z_scope.
    6 April Y <= day <= 5 April Y+1 with 1900 <= Y <= 2100; no tax year exactly outside that span. *)
 Theorem C07_boundaries_sweep : forall z, 693231 <= z < 693231 + 74144 -> day_ok z = true.
 Proof. exact day_ok_range. Qed.
+
+(* For every Y from 1900 to 2100 and every day in that range: the year filter's test "6 April Y <= day <= 5 April Y+1"
+   holds exactly when TaxPeriod::from_date assigns the day to tax year Y (so every such day lies in exactly one year). *)
+Theorem C07_boundaries : forall y z, 1900 <= y <= 2100 -> 693231 <= z < 693231 + 74144 ->
+  ((days_of_civil {| dy := y; dm := 4; dd := 6 |} <=? z) && (z <=? days_of_civil {| dy := y + 1; dm := 4; dd := 5 |}))
+  = match tax_year_of_gen 4 6 1900 2100 (civil_of_days z) with Some y' => y' =? y | None => false end.
+Proof. exact range_is_year. Qed.
+
+(* the constants regenerated from the source are the 6 April / 5 April / 1900..2100 of the property *)
+Theorem C07_constants : p_bm P0 = 4 /\ p_bd P0 = 6 /\ p_em P0 = 4 /\ p_ed P0 = 5 /\ p_ymin P0 = 1900 /\ p_ymax P0 = 2100.
+Proof. repeat split; reflexivity. Qed.
+
+(* A report restricted to year Y is the slice of the all-years report: same holdings (they reflect the whole history),
+   exactly one summary, equal to the summary the all-years report has for Y when Y has disposals, and empty of disposals
+   otherwise; both are computed from the same full-history disposal list. *)
+Theorem C07_filter_is_slice : forall cfg l y r_all r_y, 1900 <= y <= 2100 ->
+  dated_in_sweep (sort_disposals (sec_disposals P0 (eval_all P0 l))) ->
+  report_of P0 cfg None l = inr r_all -> report_of P0 cfg (Some y) l = inr r_y ->
+  let ds := sort_disposals (sec_disposals P0 (eval_all P0 l)) in
+  r_holdings r_y = r_holdings r_all /\
+  r_years r_y = [ysum_for P0 cfg l ds y] /\
+  (In y (years_of P0 ds) -> In (ysum_for P0 cfg l ds y) (r_years r_all)) /\
+  (~ In y (years_of P0 ds) -> y_disposals (ysum_for P0 cfg l ds y) = []).
+Proof. exact filter_is_slice. Qed.
+
+(* tax years are listed in strictly ascending order *)
+Theorem C07_years_ascending : forall l, Sorted.StronglySorted (fun a b => a < b) (sort_uniq Z.compare l).
+Proof. exact sort_dates_sorted. Qed.
+
 Print Assumptions C07_boundaries_sweep.
+Print Assumptions C07_boundaries.
+Print Assumptions C07_constants.
+Print Assumptions C07_filter_is_slice.
+Print Assumptions C07_years_ascending.
